@@ -542,3 +542,13 @@ pub fn jstr(s: &str) -> String {
 pub fn jarr(v: &[String]) -> String {
     format!("[{}]", v.iter().map(|s| jstr(s)).collect::<Vec<_>>().join(","))
 }
+
+/// runs a closure when dropped (also by an unwind)
+pub struct OnDrop<F: FnOnce()>(pub Option<F>);
+impl<F: FnOnce()> Drop for OnDrop<F> {
+    fn drop(&mut self) {
+        if let Some(f) = self.0.take() {
+            f();
+        }
+    }
+}
